@@ -274,7 +274,57 @@ func writeRuleLists(dir string) error {
 	if err != nil {
 		return err
 	}
-	return os.WriteFile(filepath.Join(dir, "index.json"), b, 0o644)
+	if err = os.WriteFile(filepath.Join(dir, "index.json"), b, 0o644); err != nil {
+		return err
+	}
+	// blocked-service index: three services, each with its own hosts
+	type svcF struct {
+		ID    string   `json:"id"`
+		Rules []string `json:"rules"`
+	}
+	var sidx struct {
+		Svcs []svcF `json:"blocked_services"`
+	}
+	for i := 0; i < nServices; i++ {
+		sidx.Svcs = append(sidx.Svcs, svcF{ID: serviceID(i), Rules: []string{fmt.Sprintf("||svc%d.sv.test^", i), fmt.Sprintf("||filler-svc%d.test^", i)}})
+	}
+	if b, err = json.Marshal(sidx); err != nil {
+		return err
+	}
+	return os.WriteFile(filepath.Join(dir, "services.json"), b, 0o644)
+}
+
+const nServices = 3
+
+func serviceID(i int) string { return fmt.Sprintf("service_%d", i) }
+
+// serviceProfiles: profile i blocks services i and i+1 (mod 3): different,
+// overlapping sets; every service is blocked by two profiles and not by the third.
+var serviceProfiles = []struct {
+	id, dev string
+	svcs    []int
+	mode    dnsmsg.BlockingMode
+	ttl     time.Duration
+}{
+	{"sva", "dsva", []int{0, 1}, &dnsmsg.BlockingModeNullIP{}, 11 * time.Second},
+	{"svb", "dsvb", []int{1, 2}, &dnsmsg.BlockingModeNullIP{}, 12 * time.Second},
+	{"svc", "dsvc", []int{2, 0}, &dnsmsg.BlockingModeCustomIP{IPv4: []netip.Addr{netip.MustParseAddr("192.0.2.66")}}, 13 * time.Second},
+}
+
+func serviceClients() (cs []requester) {
+	for i, sp := range serviceProfiles {
+		cs = append(cs, requester{Tag: sp.id + "/dot", Prof: 200 + i, Server: "dot", Remote: fmt.Sprintf("198.18.%d.10:43001", 110+i), TLSName: sp.dev + ".d.example"})
+	}
+	return cs
+}
+
+func profileBlocksService(p, svc int) bool {
+	for _, x := range serviceProfiles[p].svcs {
+		if x == svc {
+			return true
+		}
+	}
+	return false
 }
 
 func addRuleListProfiles(db *stack.MapDB) {
@@ -293,8 +343,35 @@ func addRuleListProfiles(db *stack.MapDB) {
 		d := &agd.Device{ID: agd.DeviceID(dev), Name: agd.DeviceName("client-" + dev), Auth: &agd.AuthSettings{PasswordHash: agdpasswd.AllowAuthenticator{}}, FilteringEnabled: true}
 		db.Add(prof, d)
 	}
+	for _, sp := range serviceProfiles {
+		var ids []filter.BlockedServiceID
+		for _, x := range sp.svcs {
+			ids = append(ids, filter.BlockedServiceID(serviceID(x)))
+		}
+		prof := &agd.Profile{
+			ID: agd.ProfileID(sp.id),
+			FilterConfig: &filter.ConfigClient{
+				Custom:       &filter.ConfigCustom{ID: sp.id},
+				Parental:     &filter.ConfigParental{Enabled: true, BlockedServices: ids},
+				RuleList:     &filter.ConfigRuleList{},
+				SafeBrowsing: &filter.ConfigSafeBrowsing{},
+			},
+			Access: access.EmptyProfile{}, BlockingMode: sp.mode, Ratelimiter: agd.GlobalRatelimiter{},
+			FilteredResponseTTL: sp.ttl, FilteringEnabled: true, QueryLogEnabled: true,
+		}
+		db.Add(prof, &agd.Device{ID: agd.DeviceID(sp.dev), Name: agd.DeviceName("client-" + sp.dev), Auth: &agd.AuthSettings{PasswordHash: agdpasswd.AllowAuthenticator{}}, FilteringEnabled: true})
+	}
 	mk("rla", "drla", &dnsmsg.BlockingModeNullIP{}, 15*time.Second, "fl_common", "fl_allow_a", "fl_extra_a")
 	mk("rlb", "drlb", &dnsmsg.BlockingModeCustomIP{IPv4: []netip.Addr{netip.MustParseAddr("192.0.2.66")}}, 25*time.Second, "fl_common", "fl_extra_b")
+}
+
+// looksFiltered reports whether m is an answer built by a profile's message
+// constructor (blocked / rewritten) rather than the upstream's answer.
+func looksFiltered(m *dns.Msg) bool {
+	if m == nil {
+		return false
+	}
+	return isBlockedShape(m) || strings.Contains(shapeOf(m), "+agdsoa") || (len(m.Answer) > 0 && m.Answer[0].Header().Ttl < 100)
 }
 
 func isBlockedShape(m *dns.Msg) bool {
@@ -316,6 +393,15 @@ func runSharedRuleList(r *vkit.Run, scratch string, maxHints int, yield func()) 
 		{Tag: "rlB/dot", Prof: 101, Server: "dot", Remote: "198.18.101.10:42002", TLSName: "drlb.d.example"},
 	}
 	hosts := []string{rlHost3, rlHost5}
+	clientHosts := [][]string{hosts, hosts}
+	var svcHosts []string
+	for i := 0; i < nServices; i++ {
+		svcHosts = append(svcHosts, fmt.Sprintf("hot.svc%d.sv.test.", i))
+	}
+	for _, c := range serviceClients() {
+		clients = append(clients, c)
+		clientHosts = append(clientHosts, svcHosts)
+	}
 	// processed alone: one fresh stack per (profile, host)
 	type refKey struct {
 		c int
@@ -324,7 +410,7 @@ func runSharedRuleList(r *vkit.Run, scratch string, maxHints int, yield func()) 
 	refs := map[refKey]*dns.Msg{}
 	counters := map[string]int64{}
 	for ci := range clients {
-		for _, h := range hosts {
+		for _, h := range clientHosts[ci] {
 			alone, err := newWorldWith(filepath.Join(scratch, "rl-alone"), nil, &upstreamFn{maxHints: maxHints}, wo)
 			if err != nil {
 				r.Inconclusive("cannot build a fresh rule-list instance for the processed-alone reference: " + err.Error())
@@ -338,6 +424,9 @@ func runSharedRuleList(r *vkit.Run, scratch string, maxHints int, yield func()) 
 				return
 			}
 			refs[refKey{ci, h}] = m
+			if ci >= 2 {
+				continue
+			}
 			if isBlockedShape(m) {
 				counters["rulelist_alone_blocked"]++
 			} else if len(m.Answer) > 0 {
@@ -356,9 +445,16 @@ func runSharedRuleList(r *vkit.Run, scratch string, maxHints int, yield func()) 
 		counters["rulelist_hosts_where_alone_verdicts_differ"] = int64(len(hosts))
 	}
 
+	if !runServiceHistories(r, scratch, maxHints, counters) {
+		return
+	}
+
 	rounds := r.N(2, 6)
 	perWorker := r.N(150, 400)
-	const workers = 32
+	// 32 workers for the two rule-list profiles, 12 for the three
+	// blocked-service profiles
+	const rlWorkers = 32
+	const workers = rlWorkers + 12
 	var sampleOnce sync.Once
 	for round := 0; round < rounds; round++ {
 		shared, err := newWorldWith(filepath.Join(scratch, fmt.Sprintf("rl-shared%d", round)), yield, &upstreamFn{maxHints: maxHints}, wo)
@@ -384,9 +480,13 @@ func runSharedRuleList(r *vkit.Run, scratch string, maxHints int, yield func()) 
 				defer wg.Done()
 				<-start
 				ci := g % 2
+				if g >= rlWorkers {
+					ci = 2 + (g-rlWorkers)%nServices
+				}
 				for i := 0; i < perWorker; i++ {
-					// bursts on one host at a time, so that both profiles meet on it
-					h := hosts[(i/8)%len(hosts)]
+					// bursts on one host at a time, so that the profiles meet on it
+					hs := clientHosts[ci]
+					h := hs[(i/8)%len(hs)]
 					o := obs{ci: ci, s: reqSpec{ID: uint16(1 + idc.Add(1)%65000), Name: h, Class: "shared-rule-list", QType: dns.TypeA, Who: clients[ci].Tag}}
 					if inflight.Add(1) > 1 {
 						o.overlap = true
@@ -412,9 +512,16 @@ func runSharedRuleList(r *vkit.Run, scratch string, maxHints int, yield func()) 
 				pb, _ := ref.Pack()
 				a := result{resps: []*dns.Msg{ref}, packed: [][]byte{pb}}
 				mm := compareOne(&o.s, &clients[o.ci], &a, &o.rs, time.Second, o.rs.end+time.Second, counters)
-				counters["rulelist_concurrent_requests"]++
-				if o.overlap {
-					counters["rulelist_concurrent_requests_overlapping"]++
+				if o.ci < 2 {
+					counters["rulelist_concurrent_requests"]++
+					if o.overlap {
+						counters["rulelist_concurrent_requests_overlapping"]++
+					}
+				} else {
+					counters["services_concurrent_requests"]++
+					if o.overlap {
+						counters["services_concurrent_requests_overlapping"]++
+					}
 				}
 				if mm != nil {
 					info := map[string]any{"phase": "shared rule list, concurrent profiles", "round": round, "request": o.s, "requester": clients[o.ci],
@@ -427,7 +534,7 @@ func runSharedRuleList(r *vkit.Run, scratch string, maxHints int, yield func()) 
 						}
 					}
 					key := mm.key
-					if mm.key == "stack:panic" || isBlockedShape(firstMsg(&o.rs)) != isBlockedShape(ref) {
+					if mm.key == "stack:panic" || looksFiltered(firstMsg(&o.rs)) != looksFiltered(ref) {
 						key = "stack:verdict-of-other-profile"
 					}
 					r.Violation(key, "a request's filtering verdict/response differs from the one it gets when processed alone: it was decided with a rule of a simultaneous request of another profile", info)
@@ -441,10 +548,116 @@ func runSharedRuleList(r *vkit.Run, scratch string, maxHints int, yield func()) 
 		})
 	}
 	for k, v := range counters {
-		if strings.HasPrefix(k, "rulelist_") {
+		if strings.HasPrefix(k, "rulelist_") || strings.HasPrefix(k, "services_") {
 			r.Bucket("stack_"+k, v)
 		} else {
 			r.Bucket("stack_rulelist_cmp_"+k, v)
 		}
 	}
+}
+
+// runServiceHistories: sequential two- and three-profile histories over the
+// blocked-service rule lists (result caches on).  For a host of service s, the
+// profile that does not block s and the two that do ask one after the other,
+// in both orders, on one shared instance; every response is compared with the
+// same request processed alone on a fresh stack.
+func runServiceHistories(r *vkit.Run, scratch string, maxHints int, counters map[string]int64) (ok bool) {
+	wo := worldOpts{ruleLists: true}
+	clients := serviceClients()
+	shared, err := newWorldWith(filepath.Join(scratch, "sv-shared"), nil, &upstreamFn{maxHints: maxHints}, wo)
+	if err != nil {
+		r.Inconclusive("cannot build the shared blocked-service instance: " + err.Error())
+		return false
+	}
+	tShared := time.Now()
+	nHist := r.N(24, 96)
+	for k := 0; k < nHist; k++ {
+		svc := k % nServices
+		host := fmt.Sprintf("h%d.svc%d.sv.test.", k, svc)
+		var non int
+		var blockers []int
+		for p := range serviceProfiles {
+			if profileBlocksService(p, svc) {
+				blockers = append(blockers, p)
+			} else {
+				non = p
+			}
+		}
+		var order []int
+		switch (k / nServices) % 4 {
+		case 0:
+			order = []int{non, blockers[0], blockers[1]}
+		case 1:
+			order = []int{blockers[0], non, blockers[1]}
+		case 2:
+			order = []int{non, blockers[1], blockers[0]}
+		default:
+			order = []int{blockers[1], blockers[0], non}
+		}
+		qt := []uint16{dns.TypeA, dns.TypeAAAA, dns.TypeHTTPS}[(k/12)%3]
+		type step struct {
+			Profile string  `json:"profile"`
+			Blocks  bool    `json:"profile_blocks_this_service"`
+			Spec    reqSpec `json:"request"`
+		}
+		var steps []step
+		var aloneBlocked []bool
+		var sharedRes, aloneRes []result
+		for i, p := range order {
+			s := reqSpec{Idx: k*4 + i, ID: uint16(20000 + k*4 + i), Name: host, Class: "blocked-services", QType: qt, Who: clients[p].Tag}
+			steps = append(steps, step{Profile: serviceProfiles[p].id, Blocks: profileBlocksService(p, svc), Spec: s})
+			alone, err := newWorldWith(filepath.Join(scratch, "sv-alone"), nil, &upstreamFn{maxHints: maxHints}, wo)
+			if err != nil {
+				r.Inconclusive("cannot build a fresh blocked-service instance for the processed-alone reference: " + err.Error())
+				return false
+			}
+			aloneRes = append(aloneRes, serveTimed(alone, &s, &clients[p], time.Now()))
+			sharedRes = append(sharedRes, serveTimed(shared, &s, &clients[p], tShared))
+			m := firstMsg(&aloneRes[i])
+			// blocked alone: constructor-built answer (TTL of the profile) or the blocked NODATA shape
+			aloneBlocked = append(aloneBlocked, looksFiltered(m))
+		}
+		differ := false
+		for i := range order {
+			if aloneBlocked[i] != aloneBlocked[0] {
+				differ = true
+			}
+			if aloneBlocked[i] != profileBlocksService(order[i], svc) {
+				// Whether a verdict is the configured one is property C02's
+				// question; here the processed-alone response is the reference
+				// whatever it is.  Only counted.
+				counters["services_alone_verdict_not_as_configured"]++
+			}
+		}
+		if differ {
+			counters["services_histories_where_alone_verdicts_differ"]++
+		}
+		for i := range order {
+			mm := compareOne(&steps[i].Spec, &clients[order[i]], &aloneRes[i], &sharedRes[i], aloneRes[i].end, sharedRes[i].end, counters)
+			counters["services_sequential_requests"]++
+			if mm != nil {
+				info := map[string]any{"phase": "blocked-service history", "history": k, "position": i, "steps": steps,
+					"services":                       "sva blocks service_0+1, svb service_1+2, svc service_2+0; service_i = ||svc<i>.sv.test^",
+					"processed_alone_on_fresh_stack": msgString(firstMsg(&aloneRes[i])), "after_the_other_profiles_on_shared_stack": msgString(firstMsg(&sharedRes[i])),
+					"error": sharedRes[i].err, "panic": sharedRes[i].panicked}
+				for kk, v := range mm.info {
+					if kk != "sequential" && kk != "concurrent" {
+						info[kk] = v
+					}
+				}
+				key := mm.key
+				if mm.key == "stack:panic" || mm.key == "stack:error-differs" || mm.key == "stack:response-count" || looksFiltered(firstMsg(&sharedRes[i])) != looksFiltered(firstMsg(&aloneRes[i])) {
+					key = "stack:verdict-of-other-profile"
+				}
+				r.Violation(key, "a profile's blocked-service verdict depends on which other profile asked for the host before: it differs from the processed-alone response", info)
+				counters["services_mismatches"]++
+			}
+		}
+		r.Eval(fmt.Sprintf("blocked-services|svc%d|%s|order=%d", svc, dns.TypeToString[qt], (k/nServices)%4), differ)
+		if k == 0 {
+			r.Sample(map[string]any{"monitor": "blocked-service history", "steps": steps})
+		}
+	}
+	counters["services_histories"] = int64(nHist)
+	return true
 }
